@@ -6,7 +6,9 @@ UW = ['lz4_count.0:9']
 L8 = dict(overlays=OVL, harness='harness/C08/lz4.c', extra_sources=[],
           trusted=['harness/C08/lz4.c: memcpy as contract (ranges accessible, whole destination object havocked)',
                    'specs/lz4_spec.h: token/offset field definitions read from the LZ4 block format document'])
-L9 = dict(overlays=OVL, harness='harness/C09/lz4.c')
+L9 = dict(overlays=OVL, harness='harness/C09/lz4.c', extra_sources=[],
+          trusted=['harness/C09/lz4.c: memcpy/memset as contracts (ranges accessible, whole destination object havocked; '
+                   'copies <= CQV_MEMCPY_EXACT bytes exact)'])
 L10 = dict(overlays=OVL, harness='harness/C10/lz4.c')
 FZ_D = dict(kind='fuzz', harness='replay/fz/lz4_decompress.c', sources=['src/compression/lz4.c'],
             max_len=48, secs=20)
@@ -16,8 +18,8 @@ FZ_C = dict(kind='fuzz', harness='replay/fz/lz4_compress.c', sources=['src/compr
 JOBS = [
     # C08: decoder on arbitrary bytes / sizes / capacity
     dict(name='c08_lz4_decompress', props=['C08', 'C10'], entry='h_lz4_decompress',
-         enforce='carquet_lz4_decompress', unwindset=UW, min_loop_obligations=6, est_s=300, timeout=900, mem_gb=14,
-         replayer=FZ_D, wip=True, **L8),
+         enforce='carquet_lz4_decompress', unwindset=UW, min_loop_obligations=6, est_s=200, timeout=900, mem_gb=14,
+         replayer=FZ_D, wip=False, **L8),
     # C09: bound arithmetic (loop free)
     dict(name='c09_lz4_compress_bound', prop='C09', entry='h_lz4_compress_bound',
          enforce='carquet_lz4_compress_bound', loop_contracts=False, backend=['z3', 'sat'], wip=True, **L9),
@@ -34,4 +36,19 @@ JOBS = [
     dict(name='c09_lz4_compress', props=['C09', 'C10'], entry='h_lz4_compress', enforce='carquet_lz4_compress',
          replace=['lz4_count', 'carquet_lz4_compress_bound'], unwindset=UW, min_loop_obligations=4, est_s=300,
          timeout=900, mem_gb=14, replayer=FZ_C, wip=True, **L9),
+    # C10 decoder direction, bounded by complete unwinding on small blocks (no loop contracts applied)
+    dict(name='c10_lz4_decoder_accepts_valid', prop='C10', entry='h_lz4_decompress_accepts_every_valid',
+         loop_contracts=False, unwind=45, defines=['CQV_N=10'], level='bounded',
+         bound='compressed block <= 10 bytes (all byte values), destination capacity 40',
+         functions=['carquet_lz4_decompress'], trusted=['specs/lz4_spec.h: block validity read from the LZ4 block format document'],
+         timeout=900, wip=True, **L10),
+    dict(name='c10_lz4_decoder_rejects_invalid', prop='C10', entry='h_lz4_decompress_accepts_only_valid',
+         loop_contracts=False, unwind=45, defines=['CQV_N=6'], level='bounded',
+         bound='compressed block <= 6 bytes (all byte values), destination capacity 40',
+         functions=['carquet_lz4_decompress'], trusted=['specs/lz4_spec.h: block validity read from the LZ4 block format document'],
+         timeout=900, wip=True,
+         note='FINDING: carquet_lz4_decompress accepts blocks the format defines as invalid: zero-length input, a block '
+              'that stops right after a match (e.g. 10 41 01 00 -> OK, 5 bytes), a last literal run < 5 bytes after a match. '
+              'liblz4 rejects all three (/tmp/lz4/demo/reject.c). Memory safe (c08_lz4_decompress); only the reject clause of C10 fails.',
+         **L10),
 ]
